@@ -781,7 +781,8 @@ class ABCPropertyGraph(ABCPropertyGraphConstants):
             image_ref = None
             image_type = None
         else:
-            image_ref, image_type = d[ABCPropertyGraph.PROP_IMAGE_REF].split(',')
+            # the type is the part after the last comma: the reference itself may contain commas
+            image_ref, image_type = d[ABCPropertyGraph.PROP_IMAGE_REF].rsplit(',', 1)
         ABCPropertyGraph.set_base_sliver_properties_from_graph_properties_dict(n, d)
         n.set_properties(image_ref=image_ref,
                          image_type=image_type,
